@@ -132,6 +132,13 @@ static bool scrollrect(TickitTermDriver *ttd, const TickitRect *rect, int downwa
 
   if(xd->cap.slrm ||
      (rect->left == 0 && rect->cols == term_cols && rightward == 0)) {
+    /* DECSLRM requires the left margin to be less than the right one; a
+     * terminal ignores it for a single column and would then scroll entire
+     * lines. Let the caller repaint instead
+     */
+    if((rect->left > 0 || right < term_cols) && rect->cols < 2)
+      return false;
+
     tickit_termdrv_write_strf(ttd, "\e[%d;%dr", rect->top + 1, tickit_rect_bottom(rect));
 
     if(rect->left > 0 || right < term_cols)
